@@ -81,6 +81,14 @@ fn main() {
                 std::fs::write(p, serde_json::to_string_pretty(&serde_json::json!({"stats": rec.stats_json(), "samples": rec.samples})).unwrap()).unwrap();
             }
         }
+        "mints" => {
+            let mut rec = rec::Recorder::to_file(&out);
+            mints::run(seed, &get("cases", ""), get("sample", "300").parse().unwrap(), &mut rec);
+            eprintln!("{}", serde_json::to_string(&rec.stats_json()).unwrap());
+            if let Some(p) = m.get("stats") {
+                std::fs::write(p, serde_json::to_string_pretty(&serde_json::json!({"stats": rec.stats_json(), "samples": rec.samples})).unwrap()).unwrap();
+            }
+        }
         "ta" => {
             let mut o = fndrv::Out::new(&out);
             tadrv::run(seed, m.get("paths").map(|s| s.as_str()), get("sample", "100").parse().unwrap(), get("random", "50").parse().unwrap(), &mut o);
